@@ -63,7 +63,7 @@ class Signal(object):
         return ValueError('Cannot directly modify values, use self.reset_values()')
 
     def reset_values(self, new_values):
-        self._values = new_values
+        self._values = np.array(new_values)  # own copy (as in __init__): never alias the caller's array or keep a list
         self._npts = len(new_values)
         self.clear_cache()
 
